@@ -187,7 +187,7 @@ def _run_unit_once(unit, repo_root, tier, rlimit, extra_args, template, build_ro
             item = None
             for sp in (prim or spans):
                 o = _origin_for(lines_map, sp['line_start']) or {}
-                if o.get('src') in ('repo', 'rewrite') and o.get('item') in lost_by_item:
+                if o.get('src') in ('repo', 'rewrite', 'insert') and o.get('item') in lost_by_item:
                     item = o['item']
                     break
             if item and item not in abstract:
